@@ -372,6 +372,16 @@ func (t *tr) nodeInstrs(f *fn, n ast.Node, out *[]instr) {
 					}
 				}
 			}
+		case *ast.SliceExpr:
+			// x.f[a:b] of an ARRAY-typed field hands out the field's own storage (to io.ReadFull, PutUint64, ...): whoever
+			// gets the slice writes the field
+			if sel, ok := s.X.(*ast.SelectorExpr); ok {
+				if tv := pkg.TypesInfo.TypeOf(sel); tv != nil {
+					if _, isArr := tv.Underlying().(*types.Array); isArr {
+						writes[sel] = true
+					}
+				}
+			}
 		case *ast.UnaryExpr:
 			if s.Op == token.AND {
 				if b := baseSel(s.X); b != nil && !atomics[b] {
